@@ -10,8 +10,9 @@
   * the reported delegation balance is the value `Undelegate` compares the requested amount with.
   The tie to the real query server is per step: `Q` lines of the trace carry the real answers and the driver compares
   them with these functions evaluated on the observed state.
-  Not proved: multiplicity ("every entry ONCE") needs the index to be duplicate-free and in bijection with the
-  (validator, denom) pairs of each bucket — monitored (`index_mismatch`), not yet an invariant theorem.
+  INV-I (`index_and_queue_agree_in_every_history`, AllianceProofs/IndexInv + IndexHistory): in every state of every
+  history the index is duplicate-free, every entry has its key and every key has an entry, so completeness holds in all
+  reachable states (`every_pending_entry_is_reported…`). Not proved: the exact multiplicity as a list equality.
   Known finding mirrored by the model: `qUnbondingsByDelegator` ranges over whitelisted assets only.
 -/
 import AllianceProofs
@@ -172,6 +173,30 @@ theorem binding_differs_on_missing_position (w : World) (del : Acct) (v : ValId)
     bDelegation w del v d = .error (.err "no_delegation") ∧ qDelegation w del v d = .ok (0, 0) := by
   unfold bDelegation qDelegation
   simp only [hv, ha, hd, and_self]
+
+/-- completeness in every reachable state: index and queue agree along every history (INV-I, `reach_ix`), so EVERY
+    pending entry of the delegator with that validator and denom is reported by the three-argument query … -/
+theorem every_pending_entry_is_reported (w : World) (hix : IX w) (d : Denom) (del : Acct) (v : ValId) (t : Time)
+    (es : List Undel) (e : Undel) (hb : ((t, del), es) ∈ w.undelQueue) (he : e ∈ es) (hv : e.val = v) (hd : e.denom = d) :
+    (v, t, d, e.amount) ∈ qUnbondings w d del v := by
+  have hget : AL.get w.undelQueue (t, del) = some es := AL.mem_get undelKeyOrder _ _ hix.qsorted hb
+  refine unbondings_complete w d del v t e ?_ hv hd ?_
+  · unfold PendingAt bucketAt; rw [hget]; exact he
+  · have := hix.covered _ hb e he
+    rw [hv, hd] at this; exact this
+
+/-- … and by the per-denom query -/
+theorem every_pending_entry_is_reported_by_denom (w : World) (hix : IX w) (d : Denom) (del : Acct) (t : Time)
+    (es : List Undel) (e : Undel) (hb : ((t, del), es) ∈ w.undelQueue) (he : e ∈ es) (hd : e.denom = d) :
+    (e.val, t, d, e.amount) ∈ qUnbondingsByDenomAndDelegator w d del := by
+  have hget : AL.get w.undelQueue (t, del) = some es := AL.mem_get undelKeyOrder _ _ hix.qsorted hb
+  refine unbondings_by_denom_complete w d del e.val t e ?_ rfl hd ?_
+  · unfold PendingAt bucketAt; rw [hget]; exact he
+  · have := hix.covered _ hb e he
+    rw [hd] at this; exact this
+
+/-- the agreement of index and queue is an invariant of every history -/
+theorem index_and_queue_agree_in_every_history (w w' : World) (hix : IX w) (hr : ReachU w w') : IX w' := reach_ix w w' hix hr
 
 /-- refutation witness (known finding): unbondings of a deleted alliance are not reported by the per-delegator query -/
 def exDeleted : World := { (default : World) with
